@@ -6,6 +6,9 @@ ID=$1; shift
 S=/verif/seeded/$ID
 SEEDRUN=${SEEDRUN:-/root/seedrun}; SV=$SEEDRUN/verif; SR=$SEEDRUN/repo
 TIER=${TIER:-quick}
+# the worktree pair is scratch: created on demand, removed by hand when a campaign is over (git worktree remove --force)
+[ -d $SV ] || git -C /verif worktree add -q --detach $SV HEAD || exit 2
+[ -d $SR ] || git -C /repo worktree add -q --detach $SR HEAD || exit 2
 git -C $SV reset -q --hard; git -C $SV checkout -q --detach $(git -C /verif rev-parse HEAD) || exit 2
 git -C $SR checkout -q -- . ; git -C $SR checkout -q --detach $(git -C /repo rev-parse HEAD) || exit 2
 if ! git -C $SR apply --check $S/patch.diff 2>/dev/null; then
